@@ -24,6 +24,7 @@ def parseOp (w : List String) : Option Op :=
   | ["pclose", i] => do pure (.peerClose (← i.toNat?))
   | ["preset", i] => do pure (.peerReset (← i.toNat?))
   | ["pconn", i] => do pure (.peerConnect (← i.toNat?))
+  | ["sendfail", i] => do pure (.sendFail (← i.toNat?))
   | ["todo", t, d, s] => do pure (.mkTodo (← t.toNat?) (← d.toNat?) (← b01 s))
   | ["cancel", t] => do pure (.cancel (← t.toNat?))
   | ["shift", t] => do pure (.shift (← t.toNat?))
